@@ -46,6 +46,7 @@ type c12Follow struct {
 	bridge   uint64
 	expectOK bool
 	mustFail bool // history-based: the signer lost the role by the stream's own accepted operations
+	epoch    int  // mustFail is honoured only while no later operation could have changed the roles again
 }
 
 // ------------------------------------------------------------------------------------------
@@ -293,13 +294,13 @@ func (g *c12L1) do(o L1Op, wf bool, expectOK bool, class string) ExecResult {
 	if res.OK && (o.Kind == "uproposer" || o.Kind == "uchallenger") {
 		if o.Kind == "uproposer" && prop0 != o.NewAddr {
 			g.pastProp[o.Bridge] = append(g.pastProp[o.Bridge], prop0)
-			g.queue = append(g.queue, c12Follow{"propose", prop0, o.Bridge, false, false}, c12Follow{"uoracle", o.NewAddr, o.Bridge, true, false},
-				c12Follow{[]string{"uproposer", "ubatch", "umeta", "uoracle", "delete"}[g.r.Intn(5)], prop0, o.Bridge, false, false})
+			g.queue = append(g.queue, c12Follow{"propose", prop0, o.Bridge, false, false, 0}, c12Follow{"uoracle", o.NewAddr, o.Bridge, true, false, 0},
+				c12Follow{[]string{"uproposer", "ubatch", "umeta", "uoracle", "delete"}[g.r.Intn(5)], prop0, o.Bridge, false, false, 0})
 		}
 		if o.Kind == "uchallenger" && chal0 != o.NewAddr {
 			g.pastChal[o.Bridge] = append(g.pastChal[o.Bridge], chal0)
-			g.queue = append(g.queue, c12Follow{"uchallenger", chal0, o.Bridge, false, false}, c12Follow{"delete", o.NewAddr, o.Bridge, false, false},
-				c12Follow{"delete", chal0, o.Bridge, false, false})
+			g.queue = append(g.queue, c12Follow{"uchallenger", chal0, o.Bridge, false, false, 0}, c12Follow{"delete", o.NewAddr, o.Bridge, false, false, 0},
+				c12Follow{"delete", chal0, o.Bridge, false, false, 0})
 		}
 	}
 	return res
@@ -355,6 +356,7 @@ type c12L2 struct {
 	evs        []string // the history as Model/C12Spec events (messages and block ends)
 	nextPlanH  int64
 	mustFail   bool
+	epoch      int // bumped by every plan and every accepted params update / batch
 	queue      []c12Follow
 	baseAddr   string
 	bound      *opchildtypes.BridgeInfo
@@ -543,10 +545,9 @@ func (g *c12L2) infoProbe(repoint int) (*BInfo, bool) {
 		id++
 		wf = !stored
 	case 2:
-		addr = e.User(uint64(2 + g.r.Intn(4))).Str
-		if addr == g.baseAddr {
-			addr = addr + "x"
-		}
+		// ONLY the bridge address changes, to another value of the same kind as the stored one
+		// (an L2-decodable address, an L1 bech32 string of another prefix, hex, upper-case, blank-looking)
+		addr = g.sameKindAddr(addr)
 		wf = !stored
 	case 3:
 		chain = chain + "-x"
@@ -577,6 +578,40 @@ func (g *c12L2) infoProbe(repoint int) (*BInfo, bool) {
 		}
 	}
 	return g.binfo(id, addr, chain, client, g.r.Chance(70), true), wf
+}
+
+// bridge addresses in the formats an L1 may use; the L2 only stores and compares the string
+var c12AddrKinds = []string{"l2", "l1-bech32", "hex", "upper", "blank"}
+
+func (g *c12L2) addrOfKind(kind string, n int) string {
+	e := g.sc.Env
+	switch kind {
+	case "l1-bech32":
+		return []string{"init1qg5ega6dykkxc307y25pecuufrjkxkaggkkxh7nad0vhyhtuhw3sqaa3c5", "init1zqyjzgfkx0r3l4yyj2fz7s5zxk5zyvvqez9sd9", "init1l1bridge000000000000000000000000000"}[n%3]
+	case "hex":
+		return []string{"0x1234abcd00000000000000000000000000000001", "0x1234abcd00000000000000000000000000000002", "0X1234ABCD00000000000000000000000000000001"}[n%3]
+	case "upper":
+		return upperBech32(e.User(uint64(1 + n%5)).Str)
+	case "blank":
+		return []string{" ", "  ", "\t"}[n%3]
+	}
+	return e.User(uint64(1 + n%5)).Str
+}
+
+func (g *c12L2) sameKindAddr(cur string) string {
+	kind := "l2"
+	for _, k := range c12AddrKinds {
+		for n := 0; n < 5; n++ {
+			if g.addrOfKind(k, n) == cur {
+				kind = k
+			}
+		}
+	}
+	for n := g.r.Intn(5); ; n++ {
+		if a := g.addrOfKind(kind, n); a != cur {
+			return a
+		}
+	}
 }
 
 func (g *c12L2) keepParams() *L2Params {
@@ -785,6 +820,7 @@ func (g *c12L2) endPlan(execs []string) {
 	}
 	H := g.nextPlanH
 	g.nextPlanH++
+	g.epoch++
 	js, err := e.Enc.Marshaler.MarshalInterfaceJSON(e.ValKeys[4])
 	if err != nil {
 		panic(err)
@@ -830,7 +866,7 @@ func (g *c12L2) endPlan(execs []string) {
 	for _, x := range before {
 		if !g.isExec(x, execs) && g.decode(x) != nil {
 			g.pastExecs = append(g.pastExecs, x)
-			g.queue = append(g.queue, c12Follow{kind: "fdep", signer: x, mustFail: true}, c12Follow{kind: "setinfo", signer: x, mustFail: true})
+			g.queue = append(g.queue, c12Follow{kind: "fdep", signer: x, mustFail: true, epoch: g.epoch}, c12Follow{kind: "setinfo", signer: x, mustFail: true, epoch: g.epoch})
 		}
 	}
 	for _, x := range execs {
@@ -971,16 +1007,19 @@ func (g *c12L2) do(o L2Op, wf, expectOK bool, class string) ExecResult {
 	}
 	g.checkBinding(i)
 	// rotations
+	if res.OK && (o.Kind == "params" || o.Kind == "exec") {
+		g.epoch++
+	}
 	if res.OK {
 		admin2, execs2, _ := g.roles()
 		if admin2 != admin {
 			g.pastAdmins = append(g.pastAdmins, admin)
-			g.queue = append(g.queue, c12Follow{"exec", admin, 0, false, false}, c12Follow{"exec", admin2, 0, true, false})
+			g.queue = append(g.queue, c12Follow{"exec", admin, 0, false, false, 0}, c12Follow{"exec", admin2, 0, true, false, 0})
 		}
 		for _, x := range execs {
 			if !g.isExec(x, execs2) {
 				g.pastExecs = append(g.pastExecs, x)
-				g.queue = append(g.queue, c12Follow{[]string{"fdep", "setinfo"}[g.r.Intn(2)], x, 0, false, false})
+				g.queue = append(g.queue, c12Follow{[]string{"fdep", "setinfo"}[g.r.Intn(2)], x, 0, false, false, 0})
 			}
 		}
 		for _, x := range execs2 {
@@ -990,7 +1029,7 @@ func (g *c12L2) do(o L2Op, wf, expectOK bool, class string) ExecResult {
 				if other == x {
 					other = strings.ToLower(x)
 				}
-				g.queue = append(g.queue, c12Follow{"setinfo", x, 0, true, false}, c12Follow{"setinfo", other, 0, true, false})
+				g.queue = append(g.queue, c12Follow{"setinfo", x, 0, true, false, 0}, c12Follow{"setinfo", other, 0, true, false, 0})
 			}
 		}
 	}
@@ -1041,7 +1080,8 @@ func (g *c12L2) oracleProbe() {
 
 func c12L2Case(seed uint64, id int, nProbes int, rep *Report) *c12L2 {
 	sc := NewL2Scenario(seed, id, false)
-	g := &c12L2{sc: sc, c: sc.Case, rep: rep, r: sc.R, baseAddr: sc.Env.User(1).Str}
+	g := &c12L2{sc: sc, c: sc.Case, rep: rep, r: sc.R}
+	g.baseAddr = g.addrOfKind(c12AddrKinds[(id+int(seed))%len(c12AddrKinds)], 0)
 	e, r := sc.Env, sc.R
 	sc.register(e.Auth, upperBech32(e.Auth))
 	kinds := []string{"fdep", "setinfo", "params", "addval", "rmval", "spend", "exec", "withdraw"}
@@ -1077,6 +1117,21 @@ func c12L2Case(seed uint64, id int, nProbes int, rep *Report) *c12L2 {
 				}
 				g.do(o, false, false, "non-executor-deposit")
 				continue
+			}
+		}
+		if n%15 == 7 {
+			// a listed executor tries to change exactly ONE binding field of the stored info: the
+			// bridge address (to another value of the same kind: foreign bech32, hex, ...), the
+			// bridge id, the L1 chain id - all must be refused, the stored binding unchanged
+			if ok, _ := e.K.BridgeInfo.Has(e.Ctx); ok {
+				_, execs, _ := g.roles()
+				if len(execs) > 0 && g.decode(execs[0]) != nil {
+					for _, rp := range []int{2, 1, 3} {
+						bi, _ := g.infoProbe(rp)
+						g.do(L2Op{Kind: "setinfo", Sender: execs[0], Info: bi}, false, false, "repoint-one-field")
+					}
+					continue
+				}
 			}
 		}
 		if n%15 == 14 {
@@ -1153,7 +1208,7 @@ func c12L2Case(seed uint64, id int, nProbes int, rep *Report) *c12L2 {
 			default:
 				o, _ = g.probe(f.kind, f.signer, 0)
 			}
-			g.mustFail = f.mustFail
+			g.mustFail = f.mustFail && f.epoch == g.epoch
 			g.do(o, wf && f.expectOK, f.expectOK, "after-rotation")
 			continue
 		}
